@@ -594,10 +594,16 @@ SELFTEST = [
      "expect": ["C20.R2"], "why": "digests containing '+' or '/' are encoded with the wrong alphabet"},
     {"name": "connection-token-case-sensitive", "kind": "mutant", "edits": [(WS, '.any(|vs| vs.eq_ignore_ascii_case("upgrade"))', '.any(|vs| vs == "upgrade")')],
      "expect": ["C20.R1"], "why": "`Connection: Upgrade` (the usual spelling) is refused"},
-    {"name": "missing-connection-accepted", "kind": "mutant", "edits": [(WS, _CONN_FOLD, _CONN_FOLD.replace("unwrap_or(false)", "unwrap_or(true)"))],
+    {"name": "missing-connection-accepted", "kind": "mutant", "edits": [(WS, """                    .any(|vs| vs.eq_ignore_ascii_case("upgrade"))
+            })
+        {""", """                    .any(|vs| vs.eq_ignore_ascii_case("upgrade"))
+            })
+            && request.headers().contains_key(header::CONNECTION)
+        {""")],
      "expect": ["C20.R1"], "why": "a request without a Connection header is upgraded"},
-    {"name": "upgrade-test-inverted", "kind": "mutant", "edits": [(WS, "        if !request\n            .headers()\n            .get(header::UPGRADE)", "        if request\n            .headers()\n            .get(header::UPGRADE)")],
+    {"name": "upgrade-test-inverted", "kind": "mutant", "edits": [(WS, "        if !request\n            .headers()\n            .get_all(header::UPGRADE)", "        if request\n            .headers()\n            .get_all(header::UPGRADE)")],
      "expect": ["C20.R1"], "why": "Upgrade: websocket is refused and everything else accepted"},
+    {"name": "prefix-f7-first-line-only", "kind": "mutant", "revert": "d8a2f7a", "expect": ["C20.X5"], "why": "pre-fix code: only the first Connection/Upgrade field line is read and HTAB is not list whitespace"},
     {"name": "missing-key-is-500", "kind": "mutant", "edits": [(WS, _KEY_ERR, '                HttpError::for_internal_error(\n                    "missing websocket key".to_string(),\n                )')],
      "expect": ["C20.R1"], "why": "a handshake without a key gets a 5xx instead of a 400-level error"},
     {"name": "status-200", "kind": "mutant", "edits": [(WS, ".status(StatusCode::SWITCHING_PROTOCOLS)", ".status(StatusCode::OK)")], "expect": ["C20.R3"], "why": "the upgrade is not answered with 101"},
@@ -614,22 +620,16 @@ SELFTEST = [
                 "    let mut hasher = Sha1::new();\n    hasher.update(request_key);\n    hasher.update(WS_GUID);\n    let digest = hasher.finalize();\n    base64::engine::general_purpose::STANDARD.encode(&digest)")],
      "why": "behaviour-preserving: local renamed, Sha1::new() for default(), digest bound to a local"},
     {"name": "connection-all-lines-trimmed", "kind": "benign",
-     "edits": [(WS, """            .get(header::CONNECTION)
-            .and_then(|hv| hv.to_str().ok())
-            .map(|hv| {
-                hv.split(|c| c == ',' || c == ' ')
+     "edits": [(WS, """            .any(|hv| {
+                hv.split(|c| c == ',' || c == ' ' || c == '\\t')
                     .any(|vs| vs.eq_ignore_ascii_case("upgrade"))
             })
-            .unwrap_or(false)
-""", """            .get_all(header::CONNECTION)
-            .iter()
-            .filter_map(|hv| hv.to_str().ok())
-            .any(|hv| hv.split(',').any(|t| t.trim().eq_ignore_ascii_case("upgrade")))
+""", """            .any(|hv| hv.split(',').any(|t| t.trim().eq_ignore_ascii_case("upgrade")))
 """)],
-     "why": "property-preserving (accepts strictly more valid spellings): every Connection field line is consulted and tokens are trimmed; same reject/accept structure"},
+     "why": "property-preserving: tokens are split on ',' and trimmed of all whitespace instead of splitting on SP/HTAB; same reject/accept structure"},
     {"name": "log-line-and-match", "kind": "benign",
      "edits": [(WS, "        let route = request.uri().to_string();", '        debug!(rqctx.log, "websocket handshake accepted");\n        let route = request.uri().to_string();'),
-               (WS, "            .unwrap_or(false)\n        {\n            return Err(HttpError::for_bad_request(\n                None,\n                \"expected connection upgrade\".to_string(),\n            ));\n        }",
-                "            .unwrap_or(false)\n        {\n            match () {\n                () => return Err(HttpError::for_bad_request(\n                    None,\n                    \"expected connection upgrade\".to_string(),\n                )),\n            }\n        }")],
+               (WS, "            })\n        {\n            return Err(HttpError::for_bad_request(\n                None,\n                \"expected connection upgrade\".to_string(),\n            ));\n        }",
+                "            })\n        {\n            match () {\n                () => return Err(HttpError::for_bad_request(\n                    None,\n                    \"expected connection upgrade\".to_string(),\n                )),\n            }\n        }")],
      "why": "behaviour-preserving: a log line on the accept path, the early return wrapped in a match"},
 ]
